@@ -1424,9 +1424,9 @@ def c12(W, replay=None):
     if replay:
         rs = [json.loads(l) for l in open(os.path.join(replay, "scenario.ndjson")) if l.strip()]
         if rs and rs[0].get("conc") and "pre" in rs[0]:
-            lv = lin_expired(W, 0, given=rs * 20)
+            lv = lin_expired(W, 0, given=rs * 300)
             idx = lv.pop("index")
-            return judge("C12", W, [lv], idx, traces=len(rs) * 20, samples=[{"scenario": rs[0]}])
+            return judge("C12", W, [lv], idx, traces=len(rs) * 300, samples=[{"scenario": rs[0]}])
         if rs and rs[0].get("conc"):
             # a concurrent history: the schedule is not reproducible, the same operations are run concurrently again (a few times)
             lv = linearizability(W, 0, given=rs * 50)
